@@ -53,6 +53,35 @@ package retriever
 //     the checkpoint as it was before the attempt is still present with its recorded sha256 (also checked
 //     after a crash during a resume);
 //   - the resumes of item 4 must return an error, must not create a manifest, must not damage fragments.
+//
+// EXTENSION (second round, three more input classes; everything above is kept):
+//   5. UNACCOUNTED ENTRIES WITH UNUSUAL NAMES at resume time, from EVERY interrupted state, one entry per resume, in
+//      the root, in graphs/ and in the directory of the first and of the last graph: a dot file (".hidden"), an
+//      editor swap file (".nodes-000002.jsonl.swp"), a name that differs from a real fragment only in case
+//      ("NODES-000001.jsonl") or only in extension (".bak" appended; the extension of the other codec), a zero-length
+//      file, a zero-length file named like a later fragment, an empty directory, an empty directory named like a later
+//      fragment, a symbolic link named like a later fragment that points to a committed fragment (to the checkpoint
+//      if nothing is committed yet), a symbolic link to a directory; and, derived from the checkpoint as read by the
+//      harness: an empty directory / a symbolic link at the path of the NEXT fragment of the running phase, a temp
+//      file of the other phase, of the shard after the next, and the two root temp names one level down.
+//      ORACLE: the resume must return an error (classes "unaccounted-entry-accepted:<kind>"); if it returns nil the
+//      entry must not exist any more ("unaccounted-entry-survives:<kind>") and, the entry put aside, the directory
+//      must be a complete dump equivalent to the reference. After a refusal: no manifest, committed fragments intact.
+//      The ONLY tolerated extras are the three temp names dump_checkpoint.go documents
+//      (removeKnownDumpCheckpointTemps): <root>/.retriever-checkpoint.json.tmp, <root>/manifest.json.tmp and
+//      <path of the next fragment of the current graph's current phase>.tmp. They are planted too (holding garbage, as
+//      a symbolic link to a committed fragment, as an empty directory): either outcome is allowed, the general resume
+//      oracle applies (nil => complete dump with NOTHING else in the directory; error => fragments intact).
+//   6. DERIVED METADATA: configurations with Scrub=full over graphs whose node AND edge properties are scrubbed with
+//      all four actions in amounts that differ from record to record, 3 nodes + 3 edges, shard size 1 (3 fragments
+//      per phase, so crashes after 2 committed fragments of a phase are among the enumerated ones). For EVERY resume
+//      that returns nil (all configurations, not only these) manifest.json is decoded generically and compared with
+//      the manifest of the uninterrupted reference field by field (only $.generated_at is ignored); the failure names
+//      the differing JSON path. The Manifest value returned by Dump must equal the file as well.
+//   7. MULTI-GRAPH dumps already at bound "1": two plain graphs and two scrubbed graphs, so the interruptions between
+//      the graphs and inside the second graph (and all of 4.-6. from those states) are enumerated at both bounds.
+//   The complete-dump check now also lists directories and symbolic links: besides manifest.json only the listed
+//   fragments (regular files) and the directories leading to them may exist.
 
 import (
 	"context"
@@ -140,6 +169,50 @@ func vcMakeGraph(nodes, edges int) *vcGraphData {
 	}
 	for i := 0; i < edges; i++ {
 		g.edges = append(g.edges, vcEdgeSpec{id: uint64(2 + 5*i), start: uint64(3 + 4*i), end: uint64(3 + 4*(i+1)), kind: fmt.Sprintf("E%d", 1+i%2), props: map[string]any{"w": i}})
+	}
+	return g
+}
+
+// vcMakeRichGraph: every node and every edge carries properties of all four scrub actions of the default rules
+// (pseudonymize: name/email/label/objectid, preserve: rank/w, redact: description/note, shift_timestamp:
+// whencreated/updated) in amounts that differ from record to record, so per-fragment action counts differ between the
+// fragments of a phase. Edges wrap around (edge i: node i -> node i+1 mod n), so edges may equal nodes in number.
+func vcMakeRichGraph(nodes, edges, salt int) *vcGraphData {
+	g := &vcGraphData{}
+	for i := 0; i < nodes; i++ {
+		kinds := []string{"KA"}
+		if i%2 == 1 {
+			kinds = []string{"KB", "KA"}
+		}
+		props := map[string]any{"name": fmt.Sprintf("user%d-%d", salt, i), "rank": i + salt}
+		switch (i + salt) % 3 {
+		case 0:
+			props["description"] = fmt.Sprintf("free text %d", i)
+		case 1:
+			props["whencreated"] = 1700000000 + i
+			props["description"] = "more text"
+			props["comment"] = "c"
+		case 2:
+			props["email"] = fmt.Sprintf("u%d@corp%d.local", i, salt)
+			props["objectid"] = fmt.Sprintf("S-1-5-21-1-2-3-%d", 1000+i)
+		}
+		g.nodes = append(g.nodes, vcNodeSpec{id: uint64(3 + 4*i), kinds: kinds, props: props})
+	}
+	for i := 0; i < edges; i++ {
+		props := map[string]any{"w": i}
+		switch (i + salt) % 3 {
+		case 0:
+			props["note"] = "seen on path"
+			props["label"] = fmt.Sprintf("host%d.corp.example.com", i)
+		case 1:
+			props["updated"] = "2024-01-02T03:04:05Z"
+		case 2:
+			props["label"] = fmt.Sprintf("edge label %d", i)
+			props["updated"] = 1700000000 + i
+			props["note"] = "n"
+			props["notes2"] = "m"
+		}
+		g.edges = append(g.edges, vcEdgeSpec{id: uint64(2 + 5*i), start: uint64(3 + 4*(i%nodes)), end: uint64(3 + 4*((i+1)%nodes)), kind: fmt.Sprintf("E%d", 1+i%2), props: props})
 	}
 	return g
 }
@@ -518,6 +591,121 @@ func vcListFiles(dir string) []string {
 	return out
 }
 
+// vcListEntries: EVERY entry below dir (directories and symbolic links included, links are not followed):
+// slash path -> "file" | "dir" | "symlink" | "other".
+func vcListEntries(dir string) map[string]string {
+	out := map[string]string{}
+	_ = filepath.WalkDir(dir, func(p string, entry fs.DirEntry, err error) error {
+		if err != nil || p == dir {
+			return nil
+		}
+		rel, _ := filepath.Rel(dir, p)
+		kind := "other"
+		switch mode := entry.Type(); {
+		case mode.IsDir():
+			kind = "dir"
+		case mode&fs.ModeSymlink != 0:
+			kind = "symlink"
+		case mode.IsRegular():
+			kind = "file"
+		}
+		out[filepath.ToSlash(rel)] = kind
+		return nil
+	})
+	return out
+}
+
+// vcReadRawManifest decodes manifest.json generically (numbers kept as written).
+func vcReadRawManifest(dir string) (any, error) {
+	content, err := os.ReadFile(filepath.Join(dir, "manifest.json"))
+	if err != nil {
+		return nil, err
+	}
+	return vcDecodeRaw(content)
+}
+
+func vcDecodeRaw(content []byte) (any, error) {
+	decoder := json.NewDecoder(strings.NewReader(string(content)))
+	decoder.UseNumber()
+	var v any
+	if err := decoder.Decode(&v); err != nil {
+		return nil, err
+	}
+	return v, nil
+}
+
+// vcDiffJSON appends "<path>: <got> <gotName>, <want> <wantName>" for every difference (at most limit); the paths in
+// ignored are skipped.
+func vcDiffJSON(path string, want, got any, gotName, wantName string, ignored map[string]bool, limit int, out *[]string) {
+	if len(*out) >= limit || ignored[path] {
+		return
+	}
+	show := func(v any) string {
+		text := vcCanon(v)
+		if len(text) > 160 {
+			text = text[:160] + "..."
+		}
+		return text
+	}
+	switch w := want.(type) {
+	case map[string]any:
+		g, ok := got.(map[string]any)
+		if !ok {
+			*out = append(*out, fmt.Sprintf("%s: %s %s, %s %s", path, show(got), gotName, show(want), wantName))
+			return
+		}
+		keys := map[string]bool{}
+		for k := range w {
+			keys[k] = true
+		}
+		for k := range g {
+			keys[k] = true
+		}
+		sorted := make([]string, 0, len(keys))
+		for k := range keys {
+			sorted = append(sorted, k)
+		}
+		sort.Strings(sorted)
+		for _, k := range sorted {
+			wv, wok := w[k]
+			gv, gok := g[k]
+			sub := path + "." + k
+			if ignored[sub] {
+				continue
+			}
+			if !wok {
+				*out = append(*out, fmt.Sprintf("%s: %s %s, absent %s", sub, show(gv), gotName, wantName))
+			} else if !gok {
+				*out = append(*out, fmt.Sprintf("%s: absent %s, %s %s", sub, gotName, show(wv), wantName))
+			} else {
+				vcDiffJSON(sub, wv, gv, gotName, wantName, ignored, limit, out)
+			}
+			if len(*out) >= limit {
+				return
+			}
+		}
+	case []any:
+		g, ok := got.([]any)
+		if !ok {
+			*out = append(*out, fmt.Sprintf("%s: %s %s, %s %s", path, show(got), gotName, show(want), wantName))
+			return
+		}
+		if len(g) != len(w) {
+			*out = append(*out, fmt.Sprintf("%s: %d elements %s, %d %s", path, len(g), gotName, len(w), wantName))
+		}
+		for i := 0; i < len(w) && i < len(g); i++ {
+			vcDiffJSON(fmt.Sprintf("%s[%d]", path, i), w[i], g[i], gotName, wantName, ignored, limit, out)
+		}
+	default:
+		if !reflect.DeepEqual(want, got) {
+			*out = append(*out, fmt.Sprintf("%s: %s %s, %s %s", path, show(got), gotName, show(want), wantName))
+		}
+	}
+}
+
+// vcIgnoredManifestPaths: the only field of manifest.json that is not derived from the data and the options.
+var vcIgnoredManifestPaths = map[string]bool{"$.generated_at": true}
+
 func vcFileSHA(path string) (string, int64, error) {
 	content, err := os.ReadFile(path)
 	if err != nil {
@@ -528,6 +716,7 @@ func vcFileSHA(path string) (string, int64, error) {
 }
 
 type vcCkFile struct {
+	Phase           string `json:"phase"`
 	Path            string `json:"path"`
 	SHA256          string `json:"sha256"`
 	CompressedBytes int64  `json:"compressed_bytes"`
@@ -537,6 +726,12 @@ type vcCkInfo struct {
 	present bool
 	files   []vcCkFile
 	counted map[string]bool // graphs whose source counts are recorded in the checkpoint
+	// the graph in progress, as the checkpoint records it (extension, item 5)
+	hasCurrent    bool
+	curName       string
+	curPhase      string // "nodes" / "edges"
+	curPhaseFiles int    // committed fragments of the current phase
+	curOtherFiles int    // committed fragments of the other phase
 }
 
 // independent (harness-side) reading of the checkpoint file
@@ -573,6 +768,14 @@ func vcReadCheckpoint(dir string) vcCkInfo {
 			info.counted[raw.Current.Name] = true
 		}
 		info.files = append(info.files, raw.Current.Files...)
+		info.hasCurrent, info.curName, info.curPhase = true, raw.Current.Name, raw.Current.Phase
+		for _, f := range raw.Current.Files {
+			if f.Phase == raw.Current.Phase {
+				info.curPhaseFiles++
+			} else {
+				info.curOtherFiles++
+			}
+		}
 	}
 	return info
 }
@@ -682,6 +885,7 @@ func vcNormErr(dir string, err error) string {
 
 type vcReference struct {
 	manifest Manifest
+	raw      any       // manifest.json of the uninterrupted dump, decoded generically
 	full     vcRecords // with properties
 	hooks    []string
 	ops      []string
@@ -720,6 +924,28 @@ func vcCheckComplete(dir string, cfg vcConfig, data *vcData, ref *vcReference, a
 			continue
 		}
 		problems = append(problems, "file not accounted for by the manifest: "+f)
+	}
+	// directories and symbolic links count too: only the listed fragments (regular files) and the directories leading to
+	// them may exist besides the manifest
+	neededDirs := map[string]bool{}
+	for f := range want {
+		for d := filepath.ToSlash(filepath.Dir(f)); d != "." && d != "/"; d = filepath.ToSlash(filepath.Dir(d)) {
+			neededDirs[d] = true
+		}
+	}
+	entries := vcListEntries(dir)
+	names := make([]string, 0, len(entries))
+	for name := range entries {
+		names = append(names, name)
+	}
+	sort.Strings(names)
+	for _, name := range names {
+		switch kind := entries[name]; {
+		case kind == "dir" && !neededDirs[name]:
+			problems = append(problems, "directory not accounted for by the manifest: "+name+"/")
+		case kind != "dir" && kind != "file" && (want[name] || name == dumpCheckpointFileName):
+			problems = append(problems, fmt.Sprintf("entry %s is a %s, not a regular file", name, kind))
+		}
 	}
 	if err := verifyCollectionFragments(dir, m); err != nil {
 		problems = append(problems, "verifyCollectionFragments: "+vcNormErr(dir, err))
@@ -782,6 +1008,18 @@ func vcCheckComplete(dir string, cfg vcConfig, data *vcData, ref *vcReference, a
 		if m.Compression != ref.manifest.Compression || m.CompressionLevel != ref.manifest.CompressionLevel || m.Driver != ref.manifest.Driver || m.Source != ref.manifest.Source {
 			problems = append(problems, "manifest header (driver/compression/source) differs from the uninterrupted dump")
 		}
+		// item 6: the whole manifest, field by field
+		if ref.raw != nil {
+			if raw, err := vcReadRawManifest(dir); err != nil {
+				problems = append(problems, "manifest.json does not decode: "+vcNormErr(dir, err))
+			} else {
+				var diffs []string
+				vcDiffJSON("$", ref.raw, raw, "here", "in the uninterrupted dump", vcIgnoredManifestPaths, 6, &diffs)
+				for _, d := range diffs {
+					problems = append(problems, "manifest.json differs from the uninterrupted dump at "+d)
+				}
+			}
+		}
 	}
 	return problems
 }
@@ -800,17 +1038,18 @@ type vcJob struct {
 	parts   int
 	aborted bool // a Dump call hung: nothing more can be run in this process
 
-	cases     int
-	sequences int
-	refused   int
-	injected  int             // resumes that returned an error because a read error was injected into them
-	completed int             // resumes that returned nil (and were checked against the reference)
-	stuck     map[string]bool // kinds of first interruption after which a fault free resume is refused
-	reasons   map[string]int
-	devHits   map[string]int
-	failCount int
-	failures  []string // the (at most 5) lexicographically smallest failure strings
-	refs      map[string]*vcReference
+	cases                                       int
+	sequences                                   int
+	refused                                     int
+	injected                                    int             // resumes that returned an error because a read error was injected into them
+	completed                                   int             // resumes that returned nil (and were checked against the reference)
+	strayRuns, strayRefused, toleratedCompleted int             // item 5
+	stuck                                       map[string]bool // kinds of first interruption after which a fault free resume is refused
+	reasons                                     map[string]int
+	devHits                                     map[string]int
+	failCount                                   int
+	failures                                    []string // the (at most 5) lexicographically smallest failure strings
+	refs                                        map[string]*vcReference
 }
 
 func (j *vcJob) mode() string {
@@ -836,11 +1075,11 @@ func (j *vcJob) fail(format string, args ...any) {
 // deviate reports a violation of a given class: failure unless the class is a known deviation.
 // oracleRefinements: classes where the literal first reading of the statement asks for more than any implementation
 // can give, so the weaker check named in the header comment IS the oracle there (these are not findings):
-//  - a crash after the manifest was renamed into place finds a manifest - of a COMPLETE dump (checked: equivalent to
-//    the reference); "no manifest" can only be demanded while the dump is incomplete, otherwise no publish order at
-//    all would satisfy the statement;
-//  - the source changed before anything of that graph was counted or committed: the resumed dump is a complete dump
-//    of the changed source (checked), indistinguishable from an uninterrupted dump started later.
+//   - a crash after the manifest was renamed into place finds a manifest - of a COMPLETE dump (checked: equivalent to
+//     the reference); "no manifest" can only be demanded while the dump is incomplete, otherwise no publish order at
+//     all would satisfy the statement;
+//   - the source changed before anything of that graph was counted or committed: the resumed dump is a complete dump
+//     of the changed source (checked), indistinguishable from an uninterrupted dump started later.
 var oracleRefinements = []string{
 	"manifest-present-after-crash@manifest.renamed",
 	"manifest-present-after-crash@checkpoint.removed",
@@ -902,6 +1141,12 @@ func (j *vcJob) reference(data *vcData) *vcReference {
 		j.fail("uninterrupted dump of %s: %s", data.name, p)
 	}
 	ref.manifest, _ = readManifest(dir)
+	if raw, err := vcReadRawManifest(dir); err != nil {
+		j.fail("uninterrupted dump of %s: manifest.json does not decode: %v", data.name, err)
+	} else {
+		ref.raw = raw
+		j.checkReturnedManifest(dir, out, "uninterrupted dump of "+data.name)
+	}
 	ref.full, _ = vcDecode(dir, ref.manifest, true)
 	var nodes, edges int64
 	for _, g := range data.graphs {
@@ -998,6 +1243,7 @@ func (j *vcJob) checkResume(dir string, out vcOutcome, pre vcCkInfo, preManifest
 		if out.res.NodeCount != nodes || out.res.EdgeCount != edges {
 			j.fail("%s: resume returned counts nodes=%d edges=%d, source holds %d/%d", desc, out.res.NodeCount, out.res.EdgeCount, nodes, edges)
 		}
+		j.checkReturnedManifest(dir, out, desc)
 		return
 	}
 	j.refuse(dir, out.err)
@@ -1006,6 +1252,33 @@ func (j *vcJob) checkResume(dir string, out vcOutcome, pre vcCkInfo, preManifest
 	}
 	for _, p := range vcIntact(dir, pre) {
 		j.fail("%s: resume returned error %q and %s", desc, vcNormErr(dir, out.err), p)
+	}
+}
+
+// checkReturnedManifest: the Manifest value a successful Dump returns is the one it wrote (generic comparison, every field).
+func (j *vcJob) checkReturnedManifest(dir string, out vcOutcome, desc string) {
+	encoded, err := json.Marshal(out.res.Manifest)
+	if err != nil {
+		j.fail("%s: returned manifest does not encode: %v", desc, err)
+		return
+	}
+	returned, err := vcDecodeRaw(encoded)
+	if err != nil {
+		j.fail("%s: returned manifest does not decode: %v", desc, err)
+		return
+	}
+	onDisk, err := vcReadRawManifest(dir)
+	if err != nil {
+		j.fail("%s: manifest.json does not decode: %s", desc, vcNormErr(dir, err))
+		return
+	}
+	var diffs []string
+	vcDiffJSON("$", onDisk, returned, "in the returned DumpResult.Manifest", "in manifest.json", nil, 4, &diffs)
+	for _, d := range diffs {
+		j.fail("%s: returned manifest differs from the written one at %s", desc, d)
+	}
+	if want := filepath.Join(dir, "manifest.json"); out.res.ManifestPath != want {
+		j.fail("%s: returned ManifestPath %q, want <dir>/manifest.json", desc, strings.ReplaceAll(out.res.ManifestPath, dir, "<dir>"))
 	}
 }
 
@@ -1148,6 +1421,212 @@ func (j *vcJob) runNegatives(state, work string, f1 vcFault, negs []vcNegative) 
 	}
 }
 
+// ---------------------------------------------------------------- item 5: unaccounted entries with unusual names
+
+type vcStrayEntry struct {
+	rel     string // slash path below the dump directory
+	typ     byte   // 'f' regular file, 'd' empty directory, 'l' symbolic link
+	content string // file content; for a link: slash path below the dump directory of the target ("" = the directory itself)
+}
+
+type vcStray struct {
+	kind      string // class suffix
+	where     string // root | graphs | graph:<name>
+	entry     vcStrayEntry
+	tolerated bool // one of the three temp names the code documents: either outcome is allowed
+}
+
+func vcOtherExt(ext string) string {
+	if ext == "" {
+		return ".gz"
+	}
+	return ""
+}
+
+// strays lists the entries to plant for the state described by the checkpoint ck (as read by the harness).
+func (j *vcJob) strays(ck vcCkInfo) []vcStray {
+	data := j.cfg.data
+	ext, _ := compressionExtension(j.cfg.codec)
+	type location struct{ where, prefix string }
+	locations := []location{{"root", ""}, {"graphs", "graphs/"}, {"graph:" + data.order[0], "graphs/" + graphDirectoryName(data.order[0]) + "/"}}
+	if last := data.order[len(data.order)-1]; last != data.order[0] {
+		locations = append(locations, location{"graph:" + last, "graphs/" + graphDirectoryName(last) + "/"})
+	}
+	linkTarget := ".retriever-checkpoint.json"
+	if len(ck.files) > 0 {
+		linkTarget = ck.files[0].Path
+	}
+	var out []vcStray
+	for _, loc := range locations {
+		add := func(kind, name string, typ byte, content string) {
+			out = append(out, vcStray{kind: kind, where: loc.where, entry: vcStrayEntry{rel: loc.prefix + name, typ: typ, content: content}})
+		}
+		add("dot-file", ".hidden", 'f', "x")
+		add("dot-swap-file", ".nodes-000002.jsonl"+ext+".swp", 'f', "b0VIM 8.2")
+		add("case-variant-of-fragment-name", "NODES-000001.jsonl"+ext, 'f', "{\"id\":\"3\",\"kinds\":[\"KA\"]}\n")
+		add("extension-variant-of-fragment-name:bak", "nodes-000001.jsonl"+ext+".bak", 'f', "{\"id\":\"3\",\"kinds\":[\"KA\"]}\n")
+		add("extension-variant-of-fragment-name:other-codec", "nodes-000001.jsonl"+vcOtherExt(ext), 'f', "{\"id\":\"3\",\"kinds\":[\"KA\"]}\n")
+		add("zero-length-file", "zero", 'f', "")
+		add("zero-length-fragment-like-file", "edges-000097.jsonl"+ext, 'f', "")
+		add("empty-directory", "emptydir", 'd', "")
+		add("empty-directory-named-like-fragment", "nodes-000096.jsonl"+ext, 'd', "")
+		add("symlink-to-fragment", "nodes-000095.jsonl"+ext, 'l', linkTarget)
+		add("symlink-to-directory", "linkdir", 'l', "")
+	}
+	at := func(kind, rel string, typ byte, content string, tolerated bool) {
+		out = append(out, vcStray{kind: kind, where: "state-dependent", entry: vcStrayEntry{rel: rel, typ: typ, content: content}, tolerated: tolerated})
+	}
+	// the two root temp names the code documents: tolerated in the root only
+	for _, name := range []string{".retriever-checkpoint.json.tmp", "manifest.json.tmp"} {
+		at("tolerated-temp:"+name+":garbage", name, 'f', "garbage{", true)
+		at("tolerated-temp:"+name+":zero-length", name, 'f', "", true)
+		at("tolerated-temp:"+name+":symlink-to-fragment", name, 'l', linkTarget, true)
+		at("tolerated-temp:"+name+":empty-directory", name, 'd', "", true)
+		at("root-temp-name-one-level-down", "graphs/"+name, 'f', "garbage{", false)
+		at("root-temp-name-in-graph-directory", "graphs/"+graphDirectoryName(data.order[0])+"/"+name, 'f', "garbage{", false)
+	}
+	if ck.hasCurrent && (ck.curPhase == "nodes" || ck.curPhase == "edges") {
+		other := "edges"
+		if ck.curPhase == "edges" {
+			other = "nodes"
+		}
+		gdir := "graphs/" + graphDirectoryName(ck.curName) + "/"
+		next := fmt.Sprintf("%s%s-%06d.jsonl%s", gdir, ck.curPhase, ck.curPhaseFiles+1, ext)
+		afterNext := fmt.Sprintf("%s%s-%06d.jsonl%s", gdir, ck.curPhase, ck.curPhaseFiles+2, ext)
+		otherNext := fmt.Sprintf("%s%s-%06d.jsonl%s", gdir, other, ck.curOtherFiles+1, ext)
+		at("tolerated-temp:next-fragment:garbage", next+".tmp", 'f', "garbage\n", true)
+		at("tolerated-temp:next-fragment:zero-length", next+".tmp", 'f', "", true)
+		at("tolerated-temp:next-fragment:symlink-to-fragment", next+".tmp", 'l', linkTarget, true)
+		at("tolerated-temp:next-fragment:empty-directory", next+".tmp", 'd', "", true)
+		at("empty-directory-at-next-fragment-path", next, 'd', "", false)
+		at("symlink-at-next-fragment-path", next, 'l', linkTarget, false)
+		at("temp-of-shard-after-next", afterNext+".tmp", 'f', "", false)
+		at("temp-of-other-phase", otherNext+".tmp", 'f', "", false)
+	}
+	return out
+}
+
+// plant creates the entry below dir; it returns the directories it had to create on the way (outermost first).
+func (e vcStrayEntry) plant(dir string) ([]string, error) {
+	abs := filepath.Join(dir, filepath.FromSlash(e.rel))
+	var made []string
+	for d := filepath.Dir(abs); len(d) > len(dir); d = filepath.Dir(d) {
+		if _, err := os.Lstat(d); err != nil {
+			made = append([]string{d}, made...)
+		}
+	}
+	if err := os.MkdirAll(filepath.Dir(abs), 0o755); err != nil {
+		return made, err
+	}
+	switch e.typ {
+	case 'd':
+		return made, os.Mkdir(abs, 0o755)
+	case 'l':
+		target, err := filepath.Rel(filepath.Dir(abs), filepath.Join(dir, filepath.FromSlash(e.content)))
+		if err != nil {
+			return made, err
+		}
+		return made, os.Symlink(target, abs)
+	}
+	return made, os.WriteFile(abs, []byte(e.content), 0o600)
+}
+
+func (e vcStrayEntry) String() string {
+	switch e.typ {
+	case 'd':
+		return "empty directory " + e.rel + "/"
+	case 'l':
+		target := e.content
+		if target == "" {
+			target = "<the dump directory>"
+		}
+		return "symbolic link " + e.rel + " -> " + target
+	}
+	return fmt.Sprintf("file %s (%d bytes)", e.rel, len(e.content))
+}
+
+func (j *vcJob) runStrays(state, work string, f1 vcFault, pre vcCkInfo, preManifest bool) {
+	data := j.cfg.data
+	for _, stray := range j.strays(pre) {
+		if j.aborted {
+			return
+		}
+		desc := fmt.Sprintf("%s, then resume with an extra %s [%s, %s]", f1, stray.entry, stray.kind, stray.where)
+		if err := vcCopyTree(state, work); err != nil {
+			j.fail("%s: harness copy failed: %v", desc, err)
+			continue
+		}
+		abs := filepath.Join(work, filepath.FromSlash(stray.entry.rel))
+		if _, err := os.Lstat(abs); err == nil {
+			continue // the state already holds an entry of that name (e.g. the temp file the crash left): nothing to plant
+		}
+		made, err := stray.entry.plant(work)
+		if err != nil {
+			j.fail("%s: harness could not plant the entry: %v", desc, err)
+			continue
+		}
+		j.strayRuns++
+		out := j.dump(work, data, j.cfg.options(), true, vcFault{})
+		if stray.tolerated {
+			// directories the HARNESS had to create for the temp name (a graph without fragments has none) are not the
+			// code's to clean up: they are taken away again if they are empty (empty directories are a class of their own)
+			for i := len(made) - 1; i >= 0; i-- {
+				_ = os.Remove(made[i])
+			}
+			if out.err == nil && out.harnessErr == "" && !out.crashed {
+				j.toleratedCompleted++
+			}
+			j.checkResume(work, out, pre, preManifest, data, desc)
+			continue
+		}
+		if out.harnessErr != "" || out.crashed {
+			j.fail("%s: %s crashed=%v", desc, out.harnessErr, out.crashed)
+			continue
+		}
+		if out.err != nil {
+			j.strayRefused++
+			j.refuse(work, out.err)
+			if !preManifest && vcExists(work, manifestFileName) {
+				j.fail("%s: refused (%s) but a manifest was written", desc, vcNormErr(work, out.err))
+			}
+			for _, p := range vcIntact(work, pre) {
+				j.fail("%s: refused (%s) and %s", desc, vcNormErr(work, out.err), p)
+			}
+			continue
+		}
+		_, statErr := os.Lstat(abs)
+		survived := statErr == nil
+		j.deviate("unaccounted-entry-accepted:"+stray.kind, "%s: resume returned nil, it must be refused (entry still there afterwards: %v); entries=%v", desc, survived, vcEntryList(work))
+		if survived {
+			j.deviate("unaccounted-entry-survives:"+stray.kind, "%s: resume returned nil and the entry is part of the published dump directory; entries=%v", desc, vcEntryList(work))
+		}
+		// the entry put aside, the rest must be a complete dump
+		_ = os.RemoveAll(abs)
+		for i := len(made) - 1; i >= 0; i-- {
+			_ = os.Remove(made[i]) // only if empty
+		}
+		for _, p := range vcCheckComplete(work, j.cfg, data, j.reference(data), false) {
+			j.fail("%s: resume returned nil and, the extra entry put aside, %s", desc, p)
+		}
+	}
+}
+
+func vcEntryList(dir string) []string {
+	entries := vcListEntries(dir)
+	out := make([]string, 0, len(entries))
+	for name, kind := range entries {
+		switch kind {
+		case "dir":
+			name += "/"
+		case "symlink":
+			name += "@"
+		}
+		out = append(out, name)
+	}
+	sort.Strings(out)
+	return out
+}
+
 func (j *vcJob) run() {
 	j.reasons, j.devHits, j.refs, j.stuck = map[string]int{}, map[string]int{}, map[string]*vcReference{}, map[string]bool{}
 	defer os.RemoveAll(j.root)
@@ -1187,6 +1666,7 @@ func (j *vcJob) run() {
 
 		if !dup {
 			j.runNegatives(state, work, f1, negs)
+			j.runStrays(state, work, f1, pre, preManifest)
 		}
 
 		// fault free resume
@@ -1241,6 +1721,7 @@ func (j *vcJob) run() {
 // vcPart is what one job reports (child process -> parent, as JSON).
 type vcPart struct {
 	Cases, Sequences, Refused, Completed, FailCount, Injected int
+	StrayRuns, StrayRefused, ToleratedCompleted               int
 	Failures                                                  []string
 	Reasons, DevHits                                          map[string]int
 	Stuck                                                     []string
@@ -1248,7 +1729,8 @@ type vcPart struct {
 
 func (j *vcJob) part_() vcPart {
 	p := vcPart{Cases: j.cases, Sequences: j.sequences, Refused: j.refused, Completed: j.completed, FailCount: j.failCount, Injected: j.injected,
-		Failures: j.failures, Reasons: j.reasons, DevHits: j.devHits}
+		Failures: j.failures, Reasons: j.reasons, DevHits: j.devHits,
+		StrayRuns: j.strayRuns, StrayRefused: j.strayRefused, ToleratedCompleted: j.toleratedCompleted}
 	for k := range j.stuck {
 		p.Stuck = append(p.Stuck, k)
 	}
@@ -1311,6 +1793,19 @@ func TestVerifBoundedCrashResume(t *testing.T) {
 	g3x2, empty, one := single("g3n2e", 3, 2), single("empty", 0, 0), single("g1n0e", 1, 0)
 	two := &vcData{name: "alpha4n3e+beta3n2e", order: []string{"alpha", "beta"}, graphs: map[string]*vcGraphData{"alpha": vcMakeGraph(4, 3), "beta": vcMakeGraph(3, 2)}}
 
+	// extension: graphs whose node and edge properties are all scrubbed (item 6), small two-graph databases (item 7)
+	rich := &vcData{name: "rich3n3e", order: []string{"g"}, graphs: map[string]*vcGraphData{"g": vcMakeRichGraph(3, 3, 0)}}
+	twoSmall := &vcData{name: "a3n2e+b2n1e", order: []string{"a", "b"}, graphs: map[string]*vcGraphData{"a": vcMakeGraph(3, 2), "b": vcMakeGraph(2, 1)}}
+	twoRich := &vcData{name: "richA3n3e+richB3n3e", order: []string{"ra", "rb"}, graphs: map[string]*vcGraphData{"ra": vcMakeRichGraph(3, 3, 1), "rb": vcMakeRichGraph(3, 3, 2)}}
+	extension := []vcConfig{
+		{data: rich, shard: 1, batch: 1, codec: CompressionNone, scrub: true},
+		{data: rich, shard: 1, batch: 2, codec: CompressionNone, scrub: true},
+		{data: twoSmall, shard: 1, batch: 1, codec: CompressionNone},
+		{data: twoSmall, shard: 2, batch: 2, codec: CompressionNone},
+		{data: twoRich, shard: 1, batch: 2, codec: CompressionNone, scrub: true},
+	}
+	const extensionText = "; EXTENSION: + scrub=full over 1 graph 3 nodes 3 edges with node and edge properties of all four scrub actions (shard 1 x batch {1,2}), + 2 graphs (3 nodes 2 edges; 2 nodes 1 edge) x (shard,batch) {(1,1),(2,2)}, + scrub=full over 2 such scrubbed graphs (shard 1, batch 2)%s; from every interrupted state additionally ~45-60 resumes with one unaccounted entry of an unusual name each (dot file, swap file, case / extension variant of a fragment name, zero-length file, empty directory, directory or symbolic link named like a fragment, in root, graphs/, first and last graph directory; directory / link at the next fragment path; foreign temp names) that must be refused, and the three documented temp names holding garbage / as link / as directory; every completed resume: manifest.json compared field by field with the uninterrupted one, directories and links listed too"
+
 	var configs []vcConfig
 	var boundText string
 	if bound == "1" {
@@ -1323,6 +1818,8 @@ func TestVerifBoundedCrashResume(t *testing.T) {
 			}
 		}
 		configs = append(configs, vcConfig{data: g3x2, shard: 2, batch: 2, codec: CompressionNone, scrub: true})
+		configs = append(configs, extension...)
+		boundText += fmt.Sprintf(extensionText, "")
 	} else {
 		boundText = "databases {2 graphs (4 nodes 3 edges; 3 nodes 2 edges); 1 graph 3 nodes 2 edges; empty graph; single node} x shard {1,2,3} x batch {1,2} x codec {none,gzip} (+ scrub=full configs) x crash models {unwind, strict}; first interruption: every hook invocation and every database read (error before / after one record); second interruption during resume at EVERY hook invocation / read; 20-odd must-refuse resumes from every interrupted state"
 		for _, d := range []*vcData{two, g3x2, empty, one} {
@@ -1338,6 +1835,13 @@ func TestVerifBoundedCrashResume(t *testing.T) {
 			vcConfig{data: two, shard: 2, batch: 2, codec: CompressionNone, scrub: true},
 			vcConfig{data: two, shard: 3, batch: 1, codec: CompressionGzip, scrub: true},
 			vcConfig{data: g3x2, shard: 2, batch: 2, codec: CompressionNone, scrub: true})
+		configs = append(configs, extension...)
+		configs = append(configs,
+			vcConfig{data: rich, shard: 1, batch: 1, codec: CompressionGzip, scrub: true},
+			vcConfig{data: rich, shard: 2, batch: 1, codec: CompressionNone, scrub: true},
+			vcConfig{data: twoRich, shard: 1, batch: 1, codec: CompressionGzip, scrub: true},
+			vcConfig{data: twoRich, shard: 2, batch: 3, codec: CompressionNone, scrub: true})
+		boundText += fmt.Sprintf(extensionText, ", + the scrubbed graph with gzip (shard 1, batch 1) and shard 2, + the two scrubbed graphs with gzip (shard 1, batch 1) and (shard 2, batch 3)")
 	}
 
 	// jobs: configuration x crash model x slice of the first interruptions (big databases are split so that
@@ -1443,11 +1947,13 @@ func TestVerifBoundedCrashResume(t *testing.T) {
 	wg.Wait()
 
 	cases, sequences, refused, failCount, completed, injected := 0, 0, 0, 0, 0, 0
+	strayRuns, strayRefused, toleratedCompleted := 0, 0, 0
 	reasons, devHits, stuckSet := map[string]int{}, map[string]int{}, map[string]bool{}
 	failures := []string{}
 	for _, part := range parts {
 		cases, sequences, refused, failCount = cases+part.Cases, sequences+part.Sequences, refused+part.Refused, failCount+part.FailCount
 		completed, injected = completed+part.Completed, injected+part.Injected
+		strayRuns, strayRefused, toleratedCompleted = strayRuns+part.StrayRuns, strayRefused+part.StrayRefused, toleratedCompleted+part.ToleratedCompleted
 		for _, k := range part.Stuck {
 			stuckSet[k] = true
 		}
@@ -1491,6 +1997,7 @@ func TestVerifBoundedCrashResume(t *testing.T) {
 		"failure_count": failCount, "configs": len(configs), "jobs": len(jobs), "jobs_run_in_process": fallbacks, "sequences": sequences,
 		"refused": refused, "refusal_reasons": refusalReasons, "distinct_refusal_reasons": len(reasons),
 		"known_deviation_hits": devHits, "resumes_completed": completed, "resumes_failed_by_injected_read_error": injected, "first_interruptions_after_which_resume_is_refused": stuck,
+		"resumes_with_unusual_extra_entry": strayRuns, "resumes_with_unusual_extra_entry_refused": strayRefused, "resumes_with_tolerated_temp_name_completed": toleratedCompleted,
 	}
 	out, _ := json.Marshal(res)
 	fmt.Println("BOUNDED-RESULT " + string(out))
